@@ -558,6 +558,11 @@ fn iphc_case(k: usize, s: &Value) -> Value {
         "ll-from-short" => Ipv6Address::new(0xfe80, 0, 0, 0, 0, 0x00ff, 0xfe00, u16::from_be_bytes(sh)),
         "ll-short-other" => Ipv6Address::new(0xfe80, 0, 0, 0, 0, 0x00ff, 0xfe00, 0x9a00 + salt),
         "ll-iid64" => Ipv6Address::new(0xfe80, 0, 0, 0, 0x1111, 0x2222, 0x3333, 0x4400 + salt),
+        "ll10-ext" => {
+            let mut o = e.as_link_local_address().unwrap().octets();
+            o[7] = 1;
+            Ipv6Address::from_octets(o)
+        }
         "global" => Ipv6Address::new(0x2001, 0xdb8, 0x1, 0x2, 0x5555, 0x6666, 0x7777, 0x8800 + salt),
         "mc-8" => Ipv6Address::new(0xff02, 0, 0, 0, 0, 0, 0, 0x00fb),
         "mc-32" => Ipv6Address::new(0xff05, 0, 0, 0, 0, 0, 0x0012, 0x3456),
